@@ -291,3 +291,9 @@ Fixpoint lit_list_eqb {A} (e : A -> A -> bool) (a b : list A) : bool :=
 Definition lit_pair_eqb (a b : bytes * bytes) : bool :=
   bytes_eqb (fst a) (fst b) && bytes_eqb (snd a) (snd b).
 Definition bwq_eqb (a b : bwq) : bool := bytes_eqb (bw_s a) (bw_s b) && (bw_i a =? bw_i b).
+Definition lit_opt_eqb {A} (e : A -> A -> bool) (a b : option A) : bool :=
+  match a, b with Some x, Some y => e x y | None, None => true | _, _ => false end.
+Definition lit_pr_eqb (a b : ports_range) : bool :=
+  (pr_start a =? pr_start b) && (pr_end a =? pr_end b) && (pr_single a =? pr_single b).
+Definition lit_pair_sb_eqb (a b : bytes * bool) : bool :=
+  bytes_eqb (fst a) (fst b) && Bool.eqb (snd a) (snd b).
